@@ -46,6 +46,7 @@ func main() {
 	eng.debug = *debug
 	eng.thorough = *thorough
 	eng.seed = *seed
+	solverSeed = *seed
 	if *debug != "" {
 		*keep = true
 	}
